@@ -92,7 +92,16 @@ impl AutoReloader {
         if mutex_guard.is_none() || self.notifier.should_reload() {
             let weak_notifier = self.notifier.prepare_and_mark_reload()?;
             if mutex_guard.is_none() || !self.notifier.fast_reload() {
-                *mutex_guard = Some((self.env_creator)(weak_notifier)?);
+                match (self.env_creator)(weak_notifier) {
+                    Ok(env) => *mutex_guard = Some(env),
+                    Err(err) => {
+                        // the request this rebuild was made for is still to be
+                        // honoured: the next call tries again instead of handing
+                        // out the environment from before the request.
+                        self.notifier.mark_reload_pending();
+                        return Err(err);
+                    }
+                }
             } else {
                 mutex_guard.as_mut().unwrap().clear_templates();
             }
@@ -366,6 +375,12 @@ impl Notifier {
         };
         handle.lock().unwrap().should_reload = false;
         Ok(weak_notifier)
+    }
+
+    fn mark_reload_pending(&self) {
+        if let Some(handle) = self.handle() {
+            handle.lock().unwrap().should_reload = true;
+        }
     }
 
     fn weak(&self) -> Notifier {
